@@ -48,6 +48,7 @@ func valueZoo() []any {
 	var ifaceHoldingPtr any = p
 	return []any{
 		nil, nilPerson, nilM, nilMK, nilInts, nilIface, nilErr, nilFunc, nilChan, nilOutcome, nilSliceP, nilPP,
+		&nilPerson, &nilM, &nilPP, &nilInts, ptrCycle(), &nilOutcome,
 		0, one, &one, "str", &str, 1.5, true, 'x', uint8(3), uintptr(7), complex(1, 2), unsafe.Pointer(&one),
 		[2]int{1, 2}, &[2]int{1, 2}, make(chan int), func() {}, struct{}{}, &struct{}{},
 		struct{ A int `db:"a"` }{1}, &struct{ A int `db:"a"` }{1},
@@ -116,6 +117,15 @@ func guard(desc string, f func()) (panicked string) {
 		os.Exit(4)
 		return ""
 	}
+}
+
+// cyc is a pointer type that can point at itself.
+type cyc *cyc
+
+func ptrCycle() any {
+	var l cyc
+	l = &l
+	return l
 }
 
 func runZoo(args []string) {
